@@ -43,6 +43,8 @@ func DiffGeth(run *vh.Run) {
 	run.Floor("transactions compared", run.Get("tx_compared"), int64(run.N(900, 20000)))
 	run.Floor("with refund", run.Get("tx_with_sstore_clear_candidate"), int64(run.N(50, 1000)))
 	run.Floor("outcome classes", int64(run.DistinctN("outcome")), 5)
+	run.Floor("calls re-reading a slot that a rolled-back frame had warmed", run.Get("calls_re_reading_a_slot_warmed_in_a_rolled_back_frame"), int64(run.N(20, 400)))
+	run.Floor("calls with address-only access-list entries for the address they probe", run.Get("calls_with_address_only_access_list_entries"), int64(run.N(15, 300)))
 	run.Floor("transfers of the sender's entire balance minus the fee", run.Get("sweep_transfers_of_the_entire_balance"), int64(run.N(8, 150)))
 	run.Floor("creation transactions whose init code is a generated program", run.Get("creation_txs_whose_init_code_is_a_generated_program"), int64(run.N(15, 300)))
 	run.Assumptions = append(run.Assumptions,
@@ -302,7 +304,67 @@ func diffWorld(run *vh.Run, label string, wi int, nBlocks int) {
 			return
 		}
 	}
+	// two hand-written contracts whose gas depends on what is warm:
+	// warmth: SLOAD(0); call itself with one byte of call data - that inner frame does SLOAD(1) and REVERTs -; SLOAD(1) again
+	// (slot 1 is cold again: whatever a rolled-back frame warmed is forgotten);
+	// prober: EXTCODESIZE / BALANCE of the address given as call data (called with address-only access-list entries)
+	var warmth, prober common.Address
+	{
+		wa := vh.NewAsm().Op(vm.CALLDATASIZE).JumpI("inner").
+			PushU(0).Op(vm.SLOAD, vm.POP).
+			PushU(1).PushU(0).Op(vm.MSTORE8).
+			PushU(0).PushU(0).PushU(1).PushU(0).PushU(0).Op(vm.ADDRESS, vm.GAS, vm.CALL, vm.POP).
+			PushU(1).Op(vm.SLOAD, vm.POP).Op(vm.STOP).
+			Label("inner").PushU(1).Op(vm.SLOAD, vm.POP).PushU(0).PushU(0).Op(vm.REVERT)
+		pr := vh.NewAsm().PushU(0).Op(vm.CALLDATALOAD).PushU(96).Op(vm.SHR).Op(vm.DUP1, vm.EXTCODESIZE, vm.POP).Op(vm.BALANCE, vm.POP).Op(vm.STOP)
+		d := w.EOAs[0]
+		n0 := w.NextNonce(d.Addr)
+		warmth, prober = crypto.CreateAddress(d.Addr, n0), crypto.CreateAddress(d.Addr, n0+1)
+		known[warmth], known[prober] = struct{}{}, struct{}{}
+		runPlans([]*vh.TxPlan{w.PlanEth(d, nil, nil, 500_000, vh.Deployer(wa.Bytes()), "ok", nil), w.PlanEth(d, nil, nil, 500_000, vh.Deployer(pr.Bytes()), "ok", nil)})
+		if run.Violations() > 0 {
+			return
+		}
+	}
 	for b := 0; b < nBlocks; b++ {
+		if b%6 == 1 {
+			s := vh.Pick(r, w.EOAs)
+			if w.C.Balance(s.Addr).Cmp(vh.Ether(100)) >= 0 {
+				// (a) warmth of a slot touched only inside a rolled-back frame, with and without the contract's slots in the tx access list
+				var plans []*vh.TxPlan
+				fs := w.GenFee(true)
+				pa := w.PlanEth(s, &warmth, nil, 200_000, nil, "ok", &fs)
+				plans = append(plans, pa)
+				// (b) address-only access-list entries: the probed address is listed without storage keys
+				target := vh.Pick(r, w.Pool)
+				if r.Bool() {
+					target = common.BytesToAddress(r.Bytes(20))
+				}
+				al := ethtypes.AccessList{{Address: target}}
+				if r.Bool() {
+					al = append(al, ethtypes.AccessTuple{Address: vh.Pick(r, w.Pool), StorageKeys: []common.Hash{{}}})
+				}
+				s2 := vh.Pick(r, w.EOAs)
+				if s2 != s && w.C.Balance(s2.Addr).Cmp(vh.Ether(100)) >= 0 {
+					price := new(big.Int).Mul(w.C.BaseFee(), big.NewInt(2))
+					var txd ethtypes.TxData = &ethtypes.AccessListTx{ChainID: big.NewInt(vh.EIP155ID), Nonce: w.NextNonce(s2.Addr), To: &prober, Gas: 100_000, GasPrice: price, Value: new(big.Int),
+						Data: common.LeftPadBytes(target.Bytes(), 20), AccessList: al}
+					if r.Bool() {
+						txd = &ethtypes.DynamicFeeTx{ChainID: big.NewInt(vh.EIP155ID), Nonce: w.NextNonce(s2.Addr), To: &prober, Gas: 100_000, GasFeeCap: price, GasTipCap: big.NewInt(1), Value: new(big.Int),
+							Data: common.LeftPadBytes(target.Bytes(), 20), AccessList: al}
+					}
+					bz, tx := w.C.EthTx(s2, txd)
+					w.BumpPending(s2.Addr)
+					plans = append(plans, &vh.TxPlan{Kind: "eth-call", Class: "ok", Sender: s2, Tx: tx, Bytes: bz, FeeKind: "x2"})
+					run.Count("calls_with_address_only_access_list_entries", 1)
+				}
+				run.Count("calls_re_reading_a_slot_warmed_in_a_rolled_back_frame", 1)
+				runPlans(plans)
+				if run.Violations() > 0 {
+					return
+				}
+			}
+		}
 		if b%20 == 9 { // multi-step SELFDESTRUCT history inside one transaction (pay, destroy, pay, destroy, forward)
 			owner := vh.Pick(r, w.EOAs)
 			if w.C.Balance(owner.Addr).Cmp(vh.Ether(100)) >= 0 {
